@@ -640,7 +640,9 @@ class IntegrityChecker(object):
             for ii, roi in enumerate(["roi size y", "roi size x"]):
                 for feat in ["image", "image_bg", "mask"]:
                     if feat in self.ds:
-                        soll = self.ds[feat].shape[ii+1]
+                        shape = self.ds[feat].shape
+                        # (an image feature must be three-dimensional)
+                        soll = shape[ii+1] if len(shape) > ii+1 else None
                         ist = self.ds.config["imaging"][roi]
                         if soll != ist:
                             cues.append(ICue(
